@@ -32,6 +32,9 @@ func (w *World) Settle() int {
 	total := 0
 	for i := 0; i < 64; i++ {
 		synctest.Wait()
+		if w.Round != nil {
+			w.Round() // every server is blocked: a consistent instant between two delivery rounds
+		}
 		n := w.Net.Step()
 		if n == 0 {
 			return total
